@@ -191,6 +191,11 @@ func (c *Conn) Read(p []byte) (int, error) {
 		if c.closed {
 			return 0, io.ErrClosedPipe
 		}
+		// like a net.Conn: an expired deadline fails the operation even if data
+		// is available
+		if !c.rdl.IsZero() && !time.Now().Before(c.rdl) {
+			return 0, timeoutErr{}
+		}
 		if len(c.in) > 0 {
 			k := copy(p, c.in)
 			c.in = c.in[k:]
@@ -300,6 +305,13 @@ func (c *Conn) SetWriteDeadline(t time.Time) error {
 	c.wdl = t
 	c.cond.Broadcast()
 	return nil
+}
+
+// DeadlineSet reports whether a read or write deadline is currently set.
+func (c *Conn) DeadlineSet() bool {
+	c.mu.Lock()
+	defer c.mu.Unlock()
+	return !c.rdl.IsZero() || !c.wdl.IsZero()
 }
 
 // ErrInjected is the error used for injected faults.
